@@ -151,7 +151,9 @@ Print Assumptions e4_reachable.
    were empty, and nothing entered afterwards.  No thread is lost by finalising a vCPU. *)
 Theorem fini_loses_nothing : forall progs nv n flags t0 s v, (nv <= n)%nat -> reachable progs nv n flags t0 s ->
   offline progs s v = true ->
-  clean s v /  (forall t, live (s_th s t) = true -> th_vcpu (s_th s t) = v -> In t (v_runq (s_vc s v))) /  (forall t, th_vcpu (s_th s t) = v -> th_state (s_th s t) <> SLEEPING /\ th_state (s_th s t) <> STANDBY \/ In t (v_runq (s_vc s v))).
+  clean s v /\
+  (forall t, live (s_th s t) = true -> th_vcpu (s_th s t) = v -> In t (v_runq (s_vc s v))) /\
+  (forall t, th_vcpu (s_th s t) = v -> th_state (s_th s t) <> SLEEPING /\ th_state (s_th s t) <> STANDBY \/ In t (v_runq (s_vc s v))).
 Proof. exact fini_loses_nothing_proof. Qed.
 Print Assumptions fini_loses_nothing.
 
